@@ -290,6 +290,9 @@ impl Prop for C01 {
         }
         st.track_custom = true;
         st.run_ops(&case.ops);
+        if st.flood {
+            return RunOut::skip("replay-fast-forward-output-flood");
+        }
         let mut o = RunOut::pass();
         if let Some(p) = case.param("pop") {
             o.count(&format!("pop.{p}"), 1);
